@@ -36,6 +36,10 @@ def cases(seed, tier, shard, nshards):
     rng = random.Random(f'{seed}:C06:{tier}:{shard}')
     made = 0
     while made < SIZES[tier] // nshards:
+        if rng.random() < 0.1:
+            made += 1
+            yield block_copolymer_case(rng)
+            continue
         if rng.random() < 0.3:
             a = ambig.random_case(rng)
             if a is None:
@@ -54,6 +58,32 @@ def cases(seed, tier, shard, nshards):
             continue
         made += 1
         yield c
+
+
+MONOMERS = {'EO': '[<]COC[>]', 'PP': '[<]CC(C)[>]', 'ST': '[<]CC([>])c1ccccc1', 'VA': '[<]CC([>])OC(C)=O', 'AM': '[<]NCC(=O)[>]'}
+
+
+def block_copolymer_case(rng):
+    """head-to-tail block copolymers over three levels: blocks (whose names repeat with other blocks in between) made of
+    monomer beads made of atoms, all joined by unlabelled directional descriptors; flattening = the bead sequence written out"""
+    monos = rng.sample(sorted(MONOMERS), rng.choice([2, 3]))
+    blocks = {}
+    for name in rng.sample(['X', 'Y', 'Z'], rng.choice([2, 3])):
+        seq = [rng.choice(monos) for _ in range(rng.randint(1, 4))]
+        blocks[name] = seq
+    names = sorted(blocks)
+    order = [rng.choice(names) for _ in range(rng.randint(3, 6))]
+    if len(set(order)) == len(order) or all(a == b for a, b in zip(order, order[1:])):
+        order = [names[0], names[-1], names[0]] + order[3:]
+    spell = lambda seq: ''.join('[#%s]' % m for m in seq)
+    lvl1 = ['#S=[#ME][>]', '#E=[<][#OH]'] + ['#%s=[<]%s[>]' % (n, spell(blocks[n])) for n in names]
+    lvl2 = ['#ME=C[>]', '#OH=[<]O'] + ['#%s=%s' % (m, MONOMERS[m]) for m in monos]
+    rng.shuffle(lvl1)
+    rng.shuffle(lvl2)
+    multi = '{[#S]' + spell(order) + '[#E]}.{' + ','.join(lvl1) + '}.{' + ','.join(lvl2) + '}'
+    flat = '{[#ME]' + ''.join(spell(blocks[n]) for n in order) + '[#OH]}.{' + ','.join(lvl2) + '}'
+    return dict(kind='ambig_layered', multi_string=multi, two_level=flat, coarse_last=False, legacy=True, nlevels=2,
+                features=['block_copolymer_three_levels', 'repeated_block_names_not_adjacent', 'blocks_%d' % len(order)])
 
 
 def final_matches(case, aa, truth):
